@@ -1,0 +1,12 @@
+//go:build !verif
+
+// Package verifhook provides named instrumentation points for the external
+// verification harness. Without the "verif" build tag every function is an empty,
+// inlinable no-op.
+package verifhook
+
+// Point marks a place where the harness may stop the process or hold the caller.
+func Point(site string) {}
+
+// Yield marks a place where the harness may perturb the goroutine schedule.
+func Yield(site string) {}
